@@ -221,7 +221,9 @@ def compare(col, pid, prog, cfg, args, sites, ref, res, log, rp, clauses):
         col.violation(pid, "returned_value_differs_from_plain_python", dict(
             expected=short(ref[1], 400), got=short(res[1], 400), args=short(args), source="\n".join(G.all_sources(prog))), rp)
         bad = True
-    rc, tc = dict(probes.State.ref_counts), dict(probes.State.counts)
+    # tawazi-side counts come from the epoch-filtered event log (nodes of an earlier failed run may still be finishing
+    # in the background and must not be counted here)
+    rc, tc = dict(probes.State.ref_counts), dict(Counter(e["fn"] for e in log if e["kind"] == "FENTER"))
     if rc != tc:
         col.violation(pid, "executed_functions_differ_from_plain_python", dict(
             expected_calls=rc, tawazi_calls=tc, args=short(args), source="\n".join(G.all_sources(prog))), rp)
@@ -286,7 +288,7 @@ def one_program(col, pid, rng, feats, depth, pidx, reps=3, clauses=True, flavour
             col.hashes.add("%08x%08x" % (zlib.crc32("\n".join(G.all_sources(prog)).encode()), zlib.crc32(repr((order, short(args), cfg["mc"], cfg["is_async"])).encode())))
         if not bad and col.evaluations % 40 == 1:
             col.sample(dict(source="\n".join(G.all_sources(prog)), args=short(args), cfg=cfg, value=short(res[1] if res[0] == "ok" else res, 300),
-                            executed=dict(probes.State.counts)))
+                            executed=dict(Counter(e["fn"] for e in log if e["kind"] == "FENTER"))))
         for e in log:
             if e["kind"] in ("SPIN", "DEADLOCK", "BYPASS"):
                 col.counters["event_" + e["kind"]] += 1
